@@ -334,10 +334,8 @@ def compressible (o : WObj) : Bool :=
   | _ => false
 
 def modelS (cfg : Cfg) (objs : List WObj) : List String :=
-  if cfg.xref && !cfg.compress then
-    -- `/Filter /FlateDecode` over raw cross-reference data (C03-F1): a strict reader stops here
-    ["S:err:xref-stream-data:inflate-failed"]
-  else
+  -- (until /repo 67304722 a raw cross-reference stream still declared /FlateDecode, C03-F1, and
+  --  the strict scan stopped at the cross-reference stream; repaired, no special case is left)
     let reachable := if cfg.objstm && !cfg.xref then objs.filter (fun o => !compressible o) else objs
     "S:ok,root=1,info=3" :: (sortById reachable).map showWObj
 
@@ -348,8 +346,7 @@ def libParse (v : Obj) : Option Obj :=
   | _ => none
 
 def modelL (cfg : Cfg) (cb : List (Bytes × Bytes)) (objs : List WObj) : List String :=
-  if cfg.xref && !cfg.compress then ["L:unmodelled:recovery-after-unreadable-xref-stream"]
-  else if cfg.objstm && !cfg.xref then ["L:unmodelled:objects-without-xref-entries"]
+  if cfg.objstm && !cfg.xref then ["L:unmodelled:objects-without-xref-entries"]
   else
     match graphOf libParse (unzOf cb) objs with
     | none => ["L:err:model-parse"]
